@@ -94,6 +94,30 @@ def tensor_in(case, shape, vals):
     return torch.tensor([bool(v) for v in vals], dtype=torch.bool).reshape(shape)
 
 
+def built_synapse(syn):
+    """what the synapse the connection built through the partial constructor ended up with (construction-path oracle):
+    every constructor argument as stored by the instance (the mixins keep them in name-mangled attributes)"""
+    out = {"tolerances": [], "cur_ob": [], "spk_ob": [], "spike_interp": [], "current_interp": [], "current_interp_kwargs": []}
+    for k, v in vars(syn).items():
+        if k.endswith("__tolerance"):
+            out["tolerances"].append(float(v))
+        elif k.endswith("__current_overbound") or k == "_CurrentMixin__overbound":
+            out["cur_ob"].append(None if v is None else float(v))
+        elif k.endswith("__spike_overbound") or k == "_SpikeMixin__overbound":
+            out["spk_ob"].append(None if v is None else bool(v))
+        elif k == "_SpikeMixin__interp" or k == "_DerivedSpikeMixin__interp":
+            out["spike_interp"].append(getattr(v, "__name__", str(v)))
+        elif k.endswith("__interp"):
+            out["current_interp"].append(getattr(v, "__name__", str(v)))
+        elif k.endswith("__interp_kwargs") and not k.startswith("_SpikeMixin"):
+            out["current_interp_kwargs"].append({a: float(b) for a, b in dict(v).items()})
+    for a in ("spike_charge", "time_constant", "tc_decay", "tc_rise"):
+        out[a] = float(getattr(syn, a)) if hasattr(syn, a) else None
+    out.update({"dt": float(syn.dt), "delay": float(syn.delay), "B": int(syn.batchsz), "shape": [int(v) for v in syn.shape],
+                "inplace": bool(syn.inplace), "cls": type(syn).__name__})
+    return out
+
+
 def restore_into_twin(c, case, cur, op):
     """checkpoint the connection, load it into a twin of the same configuration (fresh, or already run on other data),
     return the twin: the run continues on it"""
@@ -161,6 +185,7 @@ def run_conn(case):
     c = build(case)
     cur = {"dt": case["dt"], "delay": case["delay"], "B": case["B"]}
     rsz0 = c.synapse.spike_.recordsz
+    built0 = built_synapse(c.synapse)
     tr = []
     for op in case["ops"]:
         try:
@@ -177,7 +202,8 @@ def run_conn(case):
     info = {"recordsz": rsz0, "recordsz_final": c.synapse.spike_.recordsz, "delayedby": c.delayedby, "has_delay": c.delay is not None,
             "w": flt(c.weight), "b": None if c.bias is None else flt(c.bias),
             "d": None if c.delay is None else flt(c.delay),
-            "outshape": [int(v) for v in c.batched_outshape], "synshape": [int(v) for v in c.synapse.batchedshape]}
+            "outshape": [int(v) for v in c.batched_outshape], "synshape": [int(v) for v in c.synapse.batchedshape],
+            "built": built0}
     return tr, info
 
 
